@@ -98,13 +98,42 @@ def evaluate(pool, runs):
     return recs, oracles, noout
 
 
+def judge_any_order(pool, run_, rec, oracle, rec_noout=None):
+    """judge(); a mismatch in a scenario with glob arguments is re-judged against the enumeration order returned by the
+    simulated directory and then against every combination of member permutations (<= 48): files of one pattern may
+    be concatenated in ANY order, so an alarm needs every order to disagree."""
+    v = judge(run_, rec, oracle, rec_noout)
+    sc = run_["scenario"]
+    globs = [a for a in sc["args"] if a.get("glob")]
+    if v is None or not globs:
+        return v, False
+    cands = []
+    if len(rec["glob_calls"]) == len(globs) and all(sorted(g) == list(range(len(a["members"]))) for g, a in zip(rec["glob_calls"], globs)):
+        cands.append([list(g) for g in rec["glob_calls"]])
+    total = 1
+    for a in globs:
+        f = 1
+        for k in range(2, len(a["members"]) + 1):
+            f *= k
+        total *= f
+    if total <= 48:
+        cands += [list(map(list, combo)) for combo in itertools.product(*[itertools.permutations(range(len(a["members"]))) for a in globs])]
+    if not cands:
+        return None, True  # too many orders to enumerate: not judged
+    res = [unwrap(x) for x in pool.map("scenario:job_oracle", [{"scenario": sc, "glob_perms": c} for c in cands], timeout=90)]
+    for o in res:
+        if judge(run_, rec, o, rec_noout) is None:
+            return None, True
+    return v, False
+
+
 def run(ctx):
     rep = ctx.reporter(PROP, LEVEL)
     quick = ctx.tier == "quick"
     n = int((1000 if quick else 25000) * ctx.scale)
     runs = [make_run(ctx.seed, i) for i in range(n)]
     stats = {"both_fail": 0, "ok": 0, "with_o": 0, "glob_ge3": 0, "glob_nonidentity_order": 0, "m_and_l_same_name": 0,
-             "two_model_names": 0, "yaml": 0, "ini": 0, "lookup": 0, "duplicate_arg": 0}
+             "two_model_names": 0, "yaml": 0, "ini": 0, "lookup": 0, "duplicate_arg": 0, "same_pattern_twice": 0}
     distinct, samples = set(), []
     clock_reads, clock_min, clock_max = 0, None, None
     evaluations = 0
@@ -127,6 +156,8 @@ def run(ctx):
             stats["two_model_names"] += len(names_m | names_l) >= 2
             keys = [(a["name"], a["path"], a.get("lookup")) for a in sc["args"]]
             stats["duplicate_arg"] += len(keys) != len(set(keys))
+            pats = [a["path"] for a in sc["args"] if a.get("glob")]
+            stats["same_pattern_twice"] += len(pats) != len(set(pats))
             clock_reads += rec["clock"]["reads"]
             for t in (rec["clock"]["first"], rec["clock"]["last"]):
                 if t is not None:
@@ -134,7 +165,8 @@ def run(ctx):
                     clock_max = t if clock_max is None else max(clock_max, t)
             if "text" not in orc and rec["status"] != 0:
                 stats["both_fail"] += 1
-            v = judge(r, rec, orc, noout.get(i))
+            v, alt = judge_any_order(pool, r, rec, orc, noout.get(i))
+            stats["accepted_by_other_file_order"] = stats.get("accepted_by_other_file_order", 0) + bool(alt)
             if v is None:
                 stats["ok"] += 1
                 if len(samples) < 3 and nontrivial(sc) and "text" in orc:
@@ -147,7 +179,7 @@ def run(ctx):
                 continue
             small = minimise(pool, r, key)
             srec, sorc, snoout = evaluate(pool, [small])
-            v2 = judge(small, srec[0], sorc[0], snoout.get(0)) or v
+            v2 = judge_any_order(pool, small, srec[0], sorc[0], snoout.get(0))[0] or v
             rep.violation(v2[0], {"run": small, "argv": srec[0]["argv"], "cli_status": srec[0]["status"],
                                   "cli_exc": srec[0]["exc"], "cli_stdout": srec[0]["stdout"][:4000],
                                   "oracle": sorc[0], "clause": v2[0]}, v2[1])
@@ -186,7 +218,7 @@ def minimise(pool, run_, key):
     def fails(cand):
         try:
             recs, orcs, noout = evaluate(pool, [cand])
-            v = judge(cand, recs[0], orcs[0], noout.get(0))
+            v = judge_any_order(pool, cand, recs[0], orcs[0], noout.get(0))[0]
             return v is not None and v[0] == key
         except Exception:  # noqa
             return False
@@ -316,7 +348,7 @@ def real_cli_crosscheck(ctx, rep, pool, runs, recs, oracles):
             elif len(globs) == 1 and len(globs[0]["members"]) <= 4:
                 perms = list(itertools.permutations(range(len(globs[0]["members"]))))
                 res = [unwrap(x) for x in pool.map("scenario:job_oracle",
-                                                   [{"scenario": sc, "glob_perm": list(pm)} for pm in perms])]
+                                                   [{"scenario": sc, "glob_perms": [list(pm)]} for pm in perms])]
                 ok = any("text" in o and rest == o["text"] + "\n" for o in res)
             else:
                 continue
@@ -334,7 +366,7 @@ def replay(ctx, payload):
     with Pool(2, instrument=True) as pool:
         r = payload["run"]
         recs, orcs, noout = evaluate(pool, [r])
-        v = judge(r, recs[0], orcs[0], noout.get(0))
+        v = judge_any_order(pool, r, recs[0], orcs[0], noout.get(0))[0]
         if v:
             return True, v[1]
     return False, "CLI agrees with the reference model"
